@@ -8,10 +8,10 @@ RUNTIME TESTING (this file): the `repeat` endpoint runs the real `mamba_to_pytho
                             K times in one process, on T threads at once, after an unrelated warm-up workload, and
                             in three separately started processes.  Direct oracle: one verdict and byte-identical
                             output over all runs.
-CORRESPONDENCE             : for the modelled sites the set of outputs the model predicts over all permutations
-                            (`class_body_outcomes`, `render (arms_type ..)`, number of lookup candidates) is compared
-                            with the set observed: observed must be a subset, and exactly one output may be
-                            observed where the model says "order-independent".
+CORRESPONDENCE             : for the modelled sites the outputs the model predicts over all permutations are compared
+                            with the outputs observed: every class body has exactly one observed output and it is
+                            the model's (`class_body_outcomes` is a singleton, by theorem); union annotations equal
+                            `render (arms_type ..)`; lookups show at most as many outcomes as the model has candidates.
 """
 import ast, glob, itertools, json, os, re
 
@@ -21,8 +21,8 @@ SEP = "\x1e"
 
 # ------------------------------------------------------------------------------------------------
 # generators.  Every case: {"id", "src", "annotate", "cat", "tags": [..], "meta": {..}}
-# tags name the KNOWN order-dependent triggers a program contains by construction; `classbody-tie` is not set
-# here but from the Coq model's `has_tie` (the proved trigger).
+# tags name the KNOWN order-dependent triggers a program contains by construction (class bodies have none any
+# more: the position tie of D15 was repaired in /repo 88d54a3, so a class-body difference is a plain violation).
 # ------------------------------------------------------------------------------------------------
 
 def coq_str(s):
@@ -39,23 +39,6 @@ def members_term(members):
         else:
             out.append("MOther")
     return "[" + "; ".join(out) + "]"
-
-
-def py_has_tie(members, mk_init):
-    """Python transcription of Order.has_tie, used ONLY to pick a tie-free statement order for the neutralised
-    twin; tags and verdicts use the Coq model (a disagreement between the two is reported as broken)."""
-    table = {}
-    for i, (kd, nm) in enumerate(members):
-        key = "@" if kd == "other" else nm
-        table[key] = (i + 2 if kd == "fun" else i, kd == "var")
-    if mk_init:
-        if "__init__" in table:
-            pos = table["__init__"][0]
-        else:
-            pos = max([p + 1 for p, v in table.values() if v], default=0)
-        table["__init__"] = (pos, False)
-    ps = [p for p, _ in table.values()]
-    return len(ps) != len(set(ps))
 
 
 def gen_classbody(rng, k):
@@ -100,18 +83,8 @@ def gen_classbody(rng, k):
     meths = [nm for kd, nm in members if kd == "fun" and nm != "__init__"]
     tail = f"\n\ndef k := {call}\n" + (f"print(k.{meths[0]}())\n" if meths else "")
     src = pre + head + "\n" + "\n".join(lines) + tail
-    # neutralised twin: the same statements in the first order (fields, doc string, methods first) without a tie
-    rank = {"var": 0, "other": 1, "fun": 2}
-    base = sorted(range(len(members)), key=lambda i: (rank[members[i][0]], i))
-    order = next((list(o) for o in itertools.permutations(base)
-                  if not py_has_tie([members[i] for i in o], mk_init)), None)
-    case = {"src": src, "annotate": rng.random() < 0.5, "cat": "classbody", "tags": [],
+    return {"src": src, "annotate": rng.random() < 0.5, "cat": "classbody", "tags": [],
             "meta": {"members": members, "mk_init": mk_init, "mode": mode, "cls": "K"}}
-    if order is not None and py_has_tie(members, mk_init):
-        n_src = pre + head + "\n" + "\n".join(lines[i] for i in order) + tail
-        case["neutral"] = {"src": n_src, "meta": {"members": [members[i] for i in order], "mk_init": mk_init,
-                                                  "mode": mode, "cls": "K", "neutral": True}}
-    return case
 
 
 # arm types for unions: (mamba expression, Coq tname term, base name)
@@ -352,7 +325,7 @@ def classify(outcomes):
 
 def case_text(c, outcomes, twin="none"):
     """First line = the canonical classification the known-finding patterns are written against.
-    tags: order-dependent triggers present in the input (classbody-tie is decided by the Coq model's has_tie);
+    tags: order-dependent triggers present in the input by construction;
     twin: whether the neutralised twin of the input (same program with the trigger removed) was deterministic
     in this run."""
     kind, diff = classify(outcomes)
@@ -407,9 +380,9 @@ def model_labels(term):
 ANCHORS = [  # (file under src/, fragment of the code a part of model/Order.v was read from)
     ("generate/name.rs", "self.names.iter().sorted().map(Name::from).collect()"),
     ("generate/name.rs", ".generics.iter().sorted().fold(Name::empty(), |acc, n| acc.union(n))"),
-    ("generate/convert/class.rs", "Core::FunDef { id, .. } => (i + 2, Core::Id { lit: id.clone() })"),
-    ("generate/convert/class.rs", "Core::VarDef { var, .. } => (i, var.deref().clone())"),
-    ("generate/convert/class.rs", ".map(|(pos, _)| *pos + 1).max().unwrap_or(0)"),
+    ("generate/convert/class.rs", "Core::FunDef { id, .. } => ((i + 2, 2), Core::Id { lit: id.clone() })"),
+    ("generate/convert/class.rs", "Core::VarDef { var, .. } => ((i, 0), var.deref().clone())"),
+    ("generate/convert/class.rs", ".map(|((pos, _), _)| (*pos + 1, 1)).max().unwrap_or((0, 1))"),
     ("generate/convert/class.rs", ".sorted_by_key(|(pos, _)| *pos)"),
     ("check/context/clss/mod.rs", "self.classes.iter().find(|c| c.name.name == class.name)"),
     ("check/context/clss/mod.rs", ".all(|s_f| s_f.name.name != f.name.name)"),
@@ -445,14 +418,12 @@ def self_test(ck):
     b = "O:class K: \n    def m1(self): \n        return 1\n\n    f1 = 1\n"
     c_ = "O:class K: \n    f1 = 2\n    def m1(self): \n        return 1\n\n"
     plain = {"src": "class K\n    def f1: Int := 1\n    def m1(self) -> Int => 1\n", "cat": "classbody", "tags": []}
-    tie = dict(plain, tags=["classbody-tie"])
     dup = dict(plain, cat="dupclass", tags=["dupclass"])
     expect = [
         ("identical runs", plain, [a], "det", None),
-        ("body order differs, no tie in the input", plain, [a, b], "none", "VIOLATION"),
-        ("body order differs, tie in the input", tie, [a, b], "det", "D15"),
-        ("tie in the input but other bytes differ", tie, [a, c_], "det", "VIOLATION"),
-        ("tie in the input, twin also nondeterministic", tie, [a, b], "nondet", "VIOLATION"),
+        ("class body order differs (D15 is fixed: no finding may absorb it)", plain, [a, b], "none", "VIOLATION"),
+        ("class body order differs, twin deterministic", plain, [a, b], "det", "VIOLATION"),
+        ("other bytes differ", plain, [a, c_], "none", "VIOLATION"),
         ("verdict differs, no trigger", plain, [a, "E:some error"], "none", "VIOLATION"),
         ("verdict differs, duplicate class name", dup, [a, "E:some error"], "det", "D30"),
         ("duplicate class name, twin nondeterministic", dup, [a, "E:some error"], "nondet", "VIOLATION"),
@@ -481,8 +452,8 @@ def run(tier, replay=None):
     if ck.cov["model_anchors"]["missing"]:
         ck.log(f"model anchors missing: {ck.cov['model_anchors']['missing']}")
     quick = tier == "quick"
-    theorems = ["C12_partial", "C12_render_union_perm", "C12_class_body_perm", "C12_class_body_refuted",
-                "C12_class_body_init_refuted", "C12_class_lookup_perm", "C12_class_lookup_refuted",
+    theorems = ["C12_partial", "C12_render_union_perm", "C12_class_body_perm", "C12_positions_distinct",
+                "C12_old_numbering_refuted", "C12_class_lookup_perm", "C12_class_lookup_refuted",
                 "C12_fun_lookup_perm", "C12_fun_lookup_refuted", "C12_member_lookup_perm",
                 "C12_member_lookup_refuted", "C12_is_temporary_perm", "C12_is_temporary_refuted",
                 "C12_callable_args_perm", "C12_name_union_perm", "C12_trim_super_perm", "C12_perms_spec"]
@@ -511,7 +482,7 @@ def run(tier, replay=None):
         m = c["meta"]
         if c["cat"] == "classbody" and "members" in m:
             mt, mk = members_term(m["members"]), "true" if m["mk_init"] else "false"
-            terms.append(f"(has_tie {mk} {mt}, class_body_outcomes {mk} {mt})")
+            terms.append(f"class_body_outcomes {mk} {mt}")
             owners.append((c["id"], "body"))
         if c["cat"] == "union":
             for u in m["unions"]:
@@ -525,19 +496,10 @@ def run(tier, replay=None):
         ck.log(f"model evaluated {len(terms)} terms, at {time.time() - t0:.0f}s")
         for (cid, what), v in zip(owners, vals):
             model.setdefault(cid, {})[what] = v
-    n_tie = 0
     for c in cases:
         b = model.get(c["id"], {}).get("body")
         if b is not None:
-            tie = b.strip().startswith("(true") or b.strip().startswith("true")
-            c["meta"]["has_tie"] = tie
-            c["meta"]["predicted"] = sorted(model_labels(b.split(",", 1)[1] if "," in b else b))
-            if tie:
-                c["tags"] = sorted(set(c["tags"]) | {"classbody-tie"})
-                n_tie += 1
-            if py_has_tie(c["meta"]["members"], c["meta"]["mk_init"]) != tie:
-                ck.broken.append({"kind": "correspondence", "where": "py_has_tie vs Coq has_tie",
-                                  "examples": [c["src"]]})
+            c["meta"]["predicted"] = sorted(model_labels(b))
 
     # ---- implementation side: three separately started process generations ----------------------------
     K, T = (16, 8)
@@ -609,7 +571,7 @@ def run(tier, replay=None):
 
     # ---- correspondence: model-predicted set of outputs vs observed -----------------------------------
     corr_bad, corr_ok = [], 0
-    both_seen = ties_with_runs = 0
+    bodies_checked = 0
     union_checked = union_rejected = 0
     for c in cases:
         outs = observed[c["id"]]
@@ -620,17 +582,14 @@ def run(tier, replay=None):
                 continue
             labs = {body_labels(p, m["cls"], m["members"], m["mk_init"]) for p in pys}
             pred = set(m["predicted"])
-            if None in labs or not labs <= pred:
-                corr_bad.append((c["src"], f"observed bodies {sorted(map(str, labs))} not within predicted {sorted(pred)}"))
-            elif (not m["has_tie"]) and len(pred) != 1:
-                corr_bad.append((c["src"], f"model: no tie but {len(pred)} predicted bodies"))
-            elif len(pred) == 1 and len(pys) != 1:
-                corr_bad.append((c["src"], "model: order-independent, implementation gave several outputs"))
+            bodies_checked += 1
+            if len(pred) != 1:
+                corr_bad.append((c["src"], f"model predicts {len(pred)} bodies {sorted(pred)}; the theorem says one"))
+            elif len(pys) != 1 or labs != pred:
+                corr_bad.append((c["src"], f"observed {len(pys)} output(s) with bodies {sorted(map(str, labs))}, "
+                                           f"model body {sorted(pred)}"))
             else:
                 corr_ok += 1
-            if m["has_tie"]:
-                ties_with_runs += 1
-                both_seen += len(labs) > 1
         elif c["cat"] == "union" and c["annotate"]:
             pys = [o[2:] for o in outs if o.startswith("O:")]
             if not pys:
@@ -665,7 +624,7 @@ def run(tier, replay=None):
         samples.append({"classification": case_text(c, outs, twin_status(c)).splitlines()[0], "source": c["src"][:300],
                         "distinct_outcomes": len(outs), "seen_in": where})
     for c in cases:
-        if c["cat"] == "classbody" and not c["meta"].get("has_tie", True) and len(samples) < 5:
+        if c["cat"] == "classbody" and "predicted" in c["meta"] and len(samples) < 5:
             samples.append({"source": c["src"][:300], "model_predicted_bodies": c["meta"]["predicted"],
                             "observed_outcomes": len(observed[c["id"]])})
             break
@@ -687,7 +646,7 @@ def run(tier, replay=None):
                 "order with optional parent, class argument or constructor; match/if unions over 13 arm types; "
                 "same-named generic/non-generic classes incl. names of generic built-ins; same-named functions in "
                 "one or two files; 2-3 parents with/without a shared member name; trigger-free mixtures; each "
-                "trigger generator also emits the neutralised twin) + the 5 hand-written witnesses + every "
+                "generator of a known trigger also emits the neutralised twin) + the 5 hand-written witnesses + every "
                 "tests/resource/valid/**/*.mamba with both annotate values; distinct by (source, annotate); "
                 "non-trivial = everything except samples shorter than 80 characters",
         "proof_part": "Coq: C12_partial and the per-site theorems/refutations in props/C12.v (all permutations, all "
@@ -695,8 +654,10 @@ def run(tier, replay=None):
         "runtime_testing_part": "repeat endpoint on the real mamba_to_python: all runs of a case must agree on "
                                 "verdict and bytes; this is the only part that covers threads/processes/warm-up and "
                                 "the unmodelled code",
-        "correspondence": {"agree": corr_ok, "disagree": len(corr_bad), "class_bodies_with_tie": n_tie,
-                           "ties_where_both_orders_were_observed": both_seen, "ties_run": ties_with_runs,
+        "correspondence": {"agree": corr_ok, "disagree": len(corr_bad),
+                           "class_bodies_with_exactly_one_observed_output_equal_to_the_model": bodies_checked
+                           - sum(1 for x in corr_bad if "bod" in x[1]),
+                           "class_bodies_checked": bodies_checked,
                            "union_annotations_checked": union_checked, "union_programs_rejected": union_rejected,
                            "examples": [list(x) for x in corr_bad[:3]]},
         "traces_validated_against_impl": corr_ok,
